@@ -893,6 +893,11 @@ impl MerkleTree {
                     instructions.push(instruction);
                 }
                 Either::Right(node) => {
+                    if !instructions.is_empty() {
+                        // The size of an earlier root is not known yet (it has to be read
+                        // from storage first): the remaining byte count is undecided.
+                        continue;
+                    }
                     if bytes == node.length {
                         return Ok(Either::Right(root));
                     }
